@@ -936,7 +936,7 @@ class Sim:
             w.probe("cross_node_call")
         lru_before = seams.lru_stats() if cross or k in ("binop", "unop", "base", "to") else None
         si_before = {f: si_image(w.operand(op, f)) for f in rw.OPERAND_FIELDS if f in op} \
-            if k in ("to", "to_unit", "base", "binop") else None
+            if k in ("to", "to_unit", "base", "binop", "unop") else None
         warm, res = rw.run_call(fn, w, op)
         if si_before is not None and res is not None and "exc" not in warm:
             self.check_conservation(op, si_before, res)
@@ -1021,6 +1021,21 @@ class Sim:
             if out[1] != x[1]:
                 return  # cgs <-> mks electromagnetic counterparts: another dimension, base values not comparable
             exp = x
+        elif k == "unop":
+            f = op["f"]
+            with np.errstate(all="ignore"):
+                if f == "sqrt":
+                    exp = (x[0] ** 0.5, None)
+                elif f == "square":
+                    exp = (x[0] ** 2, None)
+                elif f == "pow":
+                    exp = (x[0] ** op["p"], None)
+                elif f == "recip":
+                    exp = (1.0 / x[0], None)
+                elif f == "cbrt":
+                    exp = (np.cbrt(x[0]), None)
+                elif f == "neg":
+                    exp = (-x[0], None)
         elif k == "binop":
             y = before.get("y")
             if y is None:
@@ -1214,7 +1229,7 @@ rw.Node.edited_since = _edited_since
 
 SWEEP_SPELLINGS = ["foo", "kfoo", "foo*s", "kfoo**2/s", "foo**2", "sqrt(foo)", "2*foo", "g*foo/s**2", "Mfoo", "foo/kfoo"]
 SWEEP_WARM = [None] + [(s_, r_) for s_ in SWEEP_SPELLINGS for r_ in ("unit", "quantity")]
-SWEEP_PROBE = [(s_, r_) for s_ in SWEEP_SPELLINGS for r_ in ("unit", "to")]
+SWEEP_PROBE = [(s_, r_) for s_ in SWEEP_SPELLINGS for r_ in ("unit", "to")] + [("", "sqrt1"), ("", "pow0"), ("", "mul01"), ("", "div10")]
 SWEEP_EDITS = [
     [{"k": "modify", "sym": "foo", "value": 3.0}],
     [{"k": "modify_q", "sym": "foo", "v": 2.0, "s": "m"}],
@@ -1244,7 +1259,8 @@ def sweep_case(index):
            {"k": "add", "node": 1, "h": 0, "sym": "foo", "scale": 2.0, "dims": "length", "prefixable": True},
            # a quantity created before the edit: it must keep its value, and converting it afterwards must use
            # the registry's current contents for the target
-           {"k": "quantity", "node": 1, "h": 0, "v": 2.0, "s": "foo", "route": "ctor", "store": True}]
+           {"k": "quantity", "node": 1, "h": 0, "v": 2.0, "s": "foo", "route": "ctor", "store": True},
+           {"k": "quantity", "node": 1, "h": 0, "v": 9.0, "s": "foo**2", "route": "ctor", "store": True}]
     w = SWEEP_WARM[wa]
     if w is not None:
         ops.append({"k": w[1], "node": 1, "h": 0, "s": w[0], "v": 1.0, "route": "ctor", "store": False})
@@ -1255,6 +1271,14 @@ def sweep_case(index):
     s_, r_ = SWEEP_PROBE[pr]
     if r_ == "to":
         ops.append({"k": "to", "x": 0, "s": s_, "how": "to", "store": False})
+    elif r_ == "sqrt1":
+        ops.append({"k": "unop", "f": "sqrt", "x": 1, "p": 2, "store": False})
+    elif r_ == "pow0":
+        ops.append({"k": "unop", "f": "pow", "x": 0, "p": 2, "store": False})
+    elif r_ == "mul01":
+        ops.append({"k": "binop", "f": "mul", "x": 0, "y": 1, "store": False})
+    elif r_ == "div10":
+        ops.append({"k": "binop", "f": "div", "x": 1, "y": 0, "store": False})
     else:
         ops.append({"k": "unit", "node": 1, "h": 0, "s": s_, "store": False})
     cfg = {"profile": "C12", "lru": SWEEP_LRU[lru], "syms": ["foo", "kfoo", "Mfoo"], "defsyms": ["m"], "dims": ["length"],
